@@ -5,8 +5,8 @@
    clone() of the code, lets the caller write [i_ws i] through the pointer it received, and
    selects again ([i_q2 i]).  [o_r1 (model i)] is the first result, [o_r2 (model i)] the later one.
    Quantifiers: documents with any number of statements, any strings, any writes. *)
-From Coq Require Import Permutation.
-From NV Require Import Base Regex Generated C08_Model C08_Proofs.
+From Coq Require Import Permutation Lia.
+From NV Require Import Base Regex Generated C08_Model C08_Proofs C08_Audit.
 Open Scope string_scope.
 
 (* [model] computes, through the heap, exactly the value-level selection; a later selection
@@ -185,6 +185,113 @@ Theorem C08_model_meets_oracle : forall i, wf i = true -> spec_ok i (model i) = 
 Proof. exact model_spec_ok. Qed.
 Print Assumptions C08_model_meets_oracle.
 
+(* ---- added by the theorem audit (docs/audit/C08.md) ---- *)
+
+(* the headline at the verifier level: what SkipVerify and Verify APPLY (skip / the first ca
+   store consulted) is the unique statement listing exactly registry/repository, failing that
+   the wildcard statement, failing that they refuse with ErrorNoApplicableTrustPolicy *)
+Theorem C08_verifier_applies_scoped_statement : forall i p dg,
+  wf i = true -> i_ver i = true -> i_q1 i = QOci (p ++ "@" ++ dg) ->
+  contains_byte "@" dg = false -> scope_ok p = true ->
+  let d := i_doc i in
+  (forall s, In s d -> In p (s_scopes s) ->
+     o_ver (model i) = ver_of (RSel s) /\ o_sv (model i) = skipverify_of (RSel s))
+  /\ ((forall s, In s d -> ~ In p (s_scopes s)) ->
+      (forall w, In w d -> In wildcard (s_scopes w) ->
+         o_ver (model i) = ver_of (RSel w) /\ o_sv (model i) = skipverify_of (RSel w))
+      /\ ((forall s, In s d -> ~ In wildcard (s_scopes s)) ->
+          o_ver (model i) = VNoPolicy /\ o_sv (model i) = 0%N)).
+Proof. exact m_verifier_applies. Qed.
+Print Assumptions C08_verifier_applies_scoped_statement.
+
+(* ... and a reference not of the form registry/repository@digest is refused by the verifier
+   with that error whatever the document lists (any document, valid or not) *)
+Theorem C08_verifier_refuses_malformed : forall i ref,
+  i_ver i = true -> i_q1 i = QOci ref ->
+  (contains_byte "@" ref = false \/
+   exists p dg, ref = p ++ "@" ++ dg /\ contains_byte "@" dg = false /\ scope_ok p = false) ->
+  o_ver (model i) = VNoPolicy /\ o_sv (model i) = 0%N.
+Proof. exact m_verifier_refuses_malformed. Qed.
+Print Assumptions C08_verifier_refuses_malformed.
+
+(* VerifyBlob applies the global statement when no name is given, the statement of exactly
+   that name otherwise, and refuses when there is none or the name is white space only *)
+Theorem C08_verifier_blob : forall i n,
+  wf i = true -> i_ver i = true -> i_q1 i = QName n ->
+  let d := i_doc i in
+  (n = "" ->
+     (forall s, In s d -> s_global s = true -> o_ver (model i) = ver_of (RSel s))
+     /\ ((forall s, In s d -> s_global s = false) -> o_ver (model i) = VNoPolicy))
+  /\ (blank n = false ->
+     (forall s, In s d -> s_name s = n -> o_ver (model i) = ver_of (RSel s))
+     /\ ((forall s, In s d -> s_name s <> n) -> o_ver (model i) = VNoPolicy))
+  /\ (n <> "" -> blank n = true -> o_ver (model i) = VNoPolicy).
+Proof. exact m_verifier_blob. Qed.
+Print Assumptions C08_verifier_blob.
+
+(* order, whole observation: both selections, the state of the document afterwards, SkipVerify
+   and Verify / VerifyBlob are the same for every permutation of a valid document (whatever
+   the caller writes, however empty slices are represented) *)
+Theorem C08_order_whole_observation : forall d d' acc acc' q1 ws q2 ver rep rep',
+  valid_doc d = true -> Permutation d d' ->
+  model (mk_input d' acc' q1 ws q2 ver rep') = model (mk_input d acc q1 ws q2 ver rep).
+Proof. exact m_order_whole. Qed.
+Print Assumptions C08_order_whole_observation.
+
+(* the validity hypothesis of C08_order is necessary: two statements listing the same scope
+   (rejected by Validate) are told apart by their order - the loop keeps the last *)
+Theorem C08_order_without_validity_refuted :
+  exists i i', wf i = false /\ Permutation (i_doc i) (i_doc i') /\ i_q1 i' = i_q1 i
+               /\ o_r1 (model i') <> o_r1 (model i).
+Proof. exact order_invalid_refuted. Qed.
+Print Assumptions C08_order_without_validity_refuted.
+
+(* private copy as a frame property, independent of any language of writes: on EVERY heap that
+   coincides with the loaded document on the document's own objects (indices below
+   [length h0]) - whatever else it holds, whatever was done to all other objects, in
+   particular to everything reachable from statements handed out earlier, which
+   C08_private_copy_disjoint places at or above [length h0] - a selection answers as on the
+   pristine document, only appends to the heap (no existing object, of the document or of
+   anyone else, is written), and the statement it hands out consists of objects allocated by
+   this very call: it shares nothing with the document, with any statement handed out
+   earlier, or with anything else the program holds *)
+Theorem C08_private_copy_frame : forall rep d h0 doc h q,
+  load_doc rep [] d = (h0, doc) ->
+  (forall o, (o < List.length h0)%nat -> nth_error h o = nth_error h0 o) ->
+  (List.length h0 <= List.length h)%nat ->
+  res_view (h_select true h doc q) = v_select d q
+  /\ (exists e, fst (h_select true h doc q) = (h ++ e)%list)
+  /\ (forall p, snd (h_select true h doc q) = HSel p ->
+        forall o, In o (reach (fst (h_select true h doc q)) p) -> (List.length h <= o)%nat).
+Proof. exact select_frame. Qed.
+Print Assumptions C08_private_copy_frame.
+
+(* every listed scope of the registry/repository form selects its own statement, and every
+   statement whose name is not blank is the answer to its own name *)
+Theorem C08_every_listed_scope_selects : forall i s p dg,
+  wf i = true -> In s (i_doc i) -> In p (s_scopes s) -> scope_ok p = true ->
+  contains_byte "@" dg = false -> i_q1 i = QOci (p ++ "@" ++ dg) ->
+  o_r1 (model i) = RSel s.
+Proof. exact m_every_listed_scope_selectable. Qed.
+Print Assumptions C08_every_listed_scope_selects.
+
+Theorem C08_every_named_statement_selects : forall i s,
+  wf i = true -> In s (i_doc i) -> blank (s_name s) = false -> i_q1 i = QName (s_name s) ->
+  o_r1 (model i) = RSel s.
+Proof. exact m_blob_every_named_statement_selectable. Qed.
+Print Assumptions C08_every_named_statement_selects.
+
+(* FALSE at full strength - "for blobs the statement is the one with exactly the requested
+   name" without the restriction [blank n = false] of C08_blob_name (which is the part that
+   holds): a statement named " " (accepted by Validate, see C08_FromC09) is not handed out for
+   the name " "; GetApplicableTrustPolicy and VerifyBlob refuse (fail closed). Replayed on the
+   real code by the harness family "blank-named". *)
+Theorem C08_blob_name_full_refuted :
+  exists i n s, wf i = true /\ i_q1 i = QName n /\ In s (i_doc i) /\ s_name s = n
+                /\ o_r1 (model i) = RErr 4 /\ o_ver (model i) = VNoPolicy.
+Proof. exact blob_name_full_refuted. Qed.
+Print Assumptions C08_blob_name_full_refuted.
+
 (* ---- non-vacuity ---- *)
 (* ex_doc = [ab: reg.io/a/b, reg.io:80/a/b; abc: reg.io/a/b/c; any: *], ex_blob = [b0; B0 (global)] : C08_Proofs *)
 (* a valid three-statement document with nested scopes and a wildcard: the nested path, the
@@ -238,3 +345,47 @@ Example C08_example_session :
           OWr 1 (WAppend FStores "ca:evil"); OWr 0 (WName "z"); OSel q])
   = [RSel (nth 0 ex_doc dummy_stmt); RSel (nth 0 ex_doc dummy_stmt); RSel (nth 0 ex_doc dummy_stmt)].
 Proof. vm_compute. reflexivity. Qed.
+
+(* the hypotheses of C08_private_copy_disjoint / C08_private_copy_frame are met by a concrete
+   selection: after selecting on a heap that also holds an earlier, overwritten copy, the
+   answer is the pristine statement and the new copy lies above the document *)
+Example C08_example_frame :
+  let '(h0, doc) := load_doc true [] ex_doc in
+  let q := QOci "reg.io/a/b@sha256:00" in
+  let hr1 := h_select true h0 doc q in
+  match snd hr1 with
+  | HSel p =>
+      let h := apply_ws p (fst hr1) (wall "x") in
+      (forall o, (o < List.length h0)%nat -> nth_error h o = nth_error h0 o)
+      /\ (List.length h0 <= List.length h)%nat
+      /\ res_view (h_select true h doc q) = RSel (nth 0 ex_doc dummy_stmt)
+      /\ view h p <> nth 0 ex_doc dummy_stmt
+      /\ forallb (fun o => Nat.leb (List.length h0) o) (reach (fst hr1) p) = true
+  | HErr _ => False
+  end.
+Proof.
+  vm_compute. split; [|split; [|split; [|split]]].
+  - intros o Ho. repeat (destruct o as [|o]; [reflexivity|]). exfalso. lia.
+  - repeat constructor.
+  - reflexivity.
+  - intros E. discriminate E.
+  - reflexivity.
+Qed.
+
+(* verifier level: listed path, unlisted path (wildcard), no wildcard, skip statement *)
+Example C08_example_verifier :
+  let ver d ref := let m := model (mk_input d true (QOci ref) [] (QOci ref) true false) in (o_ver m, o_sv m) in
+  ver ex_doc "reg.io/a/b/c@sha256:00" = (VUsed (Some "k1"), 2%N)
+  /\ ver ex_doc "reg.io/zzz@sha256:00" = (VUsed (Some "k2"), 2%N)
+  /\ ver (firstn 2 ex_doc) "reg.io/zzz@sha256:00" = (VNoPolicy, 0%N)
+  /\ ver ex_doc "reg.io/a/b:v1" = (VNoPolicy, 0%N)
+  /\ ver (mk_stmt "s" ["reg.io/zzz"] (mk_sv "skip" [] "") [] [] false :: ex_doc) "reg.io/zzz@sha256:00" = (VSkip, 1%N).
+Proof. vm_compute. repeat split; reflexivity. Qed.
+
+(* VerifyBlob: by name, no name (global), unknown name, white-space name *)
+Example C08_example_verifier_blob :
+  let ver n := o_ver (model (mk_input ex_blob true (QName n) [] QGlobal true false)) in
+  ver "b0" = VUsed (Some "k0") /\ ver "" = VUsed (Some "k1") /\ ver "B0" = VUsed (Some "k1")
+  /\ ver "b" = VNoPolicy /\ ver " " = VNoPolicy
+  /\ o_ver (model (mk_input (firstn 1 ex_blob) true (QName "") [] QGlobal true false)) = VNoPolicy.
+Proof. vm_compute. repeat split; reflexivity. Qed.
